@@ -91,39 +91,23 @@ fn main() {
     if difail > 15 {
         difail -= 32; // 5-bit two's complement printed unsigned
     }
-    // order of closure-visible events in the counterexample
+    // time-triggered schedule computed by check_par.py: "schedule": {"fill0": 3, "work0": 5, "workend0": 9, ...}
     let mut slots: Vec<(String, u64)> = vec![];
-    let (mut nfill, mut nnext, mut ninit, mut slot) = (0, 0, 0, 0u64);
-    let mut work_of_job = 0;
-    if let Some(i) = arg.find("\"steps\"") {
-        for tok in arg[i..].split('"') {
-            let t = tok.trim();
-            let key = if t.starts_with("fill ") {
-                nfill += 1;
-                Some(format!("fill{}", nfill - 1))
-            } else if t == "c_next" {
-                nnext += 1;
-                Some(format!("next{}", nnext - 1))
-            } else if t.starts_with("init_d ") {
-                ninit += 1;
-                Some(format!("init_d{}", ninit - 1))
-            } else if t.starts_with("init_r ") {
-                Some("init_r".to_string())
-            } else if t.starts_with("work ") {
-                work_of_job += 1;
-                Some(format!("work#{}", work_of_job - 1))
-            } else if t.starts_with("send_D ok ok") {
-                Some(format!("sendjob#{}", slot))
-            } else {
-                None
-            };
-            if let Some(k) = key {
-                slots.push((k, slot));
-                slot += 1;
+    if let Some(i) = arg.find("\"schedule\"") {
+        let rest = &arg[i..];
+        if let (Some(a), Some(b)) = (rest.find('{'), rest.find('}')) {
+            for kv in rest[a + 1..b].split(',') {
+                let mut it = kv.split(':');
+                if let (Some(k), Some(v)) = (it.next(), it.next()) {
+                    if let Ok(n) = v.trim().parse::<u64>() {
+                        slots.push((k.trim().trim_matches('"').to_string(), n));
+                    }
+                }
             }
         }
     }
-    let calls = if arg.contains("\"steps\"") { nnext } else { sets + 2 };
+    let c = num(&arg, "calls").unwrap_or(-1);
+    let calls = if c >= 0 { c as usize } else { sets + 2 };
     let attempts = num(&arg, "attempts").unwrap_or(3);
     let mut out = String::new();
     for _ in 0..attempts {
@@ -166,10 +150,11 @@ fn main() {
                     }
                 },
                 move |d: &mut Data| {
-                    let k = nwork.fetch_add(1, Ordering::SeqCst);
-                    let _ = k;
-                    s5.wait(&format!("work#{}", d.batch));
+                    let _ = nwork.fetch_add(1, Ordering::SeqCst);
+                    s5.wait(&format!("work{}", d.batch));
                     f5.lock().unwrap().events.push(format!("work {}", d.batch));
+                    // the worker finishes in the slot in which the job sends its result
+                    s5.wait(&format!("workend{}", d.batch));
                     d.batch
                 },
                 move |rsets| {
